@@ -461,18 +461,35 @@ def FArm.spaceOut : (fuel : Nat) → FArm → Bool × FArm
 def FArm.feed (s : FArm) (e' : Stream.EncState) : FArm :=
   { s with enc := { e' with written := [] }, buf := s.buf ++ e'.written.flatten }
 
-/-- `armorEncoderStream.Write(b)`: success or the writer's error -/
-def FArm.write (s : FArm) (b : Bytes) : Bool × FArm :=
-  if s.failed then (false, s) else
-  let s1 := s.feed (s.enc.write b).2.2
-  match FArm.spaceOut (s1.buf.length + 1) s1 with
-  | (true, s2) => (true, s2)
-  | (false, s2) => (false, { s2 with failed := true })
+/-- `armorEncoderStream.Write(b)`: `(n, ok)` and the new state.
+    `if s.err != nil { return 0, s.err }`: a refused call touches neither the
+    encoder nor the buffer nor the writer.  Otherwise `n` is what the BaseX
+    encoder's `Write` returned (`len(b)`: it writes into a `bytes.Buffer`, which
+    never fails — `enc.sink = []`, `enc.failed = false` in every state reachable
+    from `FArm.init`, see `farm_encOk_*` in Proofs/SenderStreamArmor.lean; the
+    branch is mirrored all the same), also when `spaceAndOutputBuffer` fails. -/
+def FArm.writeN (s : FArm) (b : Bytes) : Nat × Bool × FArm :=
+  if s.failed then (0, false, s) else
+  match s.enc.write b with
+  | (n, false, e') => (n, false, { s.feed e' with failed := true })
+  | (n, true, e') =>
+    let s1 := s.feed e'
+    match FArm.spaceOut (s1.buf.length + 1) s1 with
+    | (true, s2) => (n, true, s2)
+    | (false, s2) => (n, false, { s2 with failed := true })
 
-/-- `armorEncoderStream.Close()` -/
+/-- `armorEncoderStream.Write(b)` as an underlying writer of the packet streams:
+    success or the error -/
+def FArm.write (s : FArm) (b : Bytes) : Bool × FArm := (s.writeN b).2
+
+/-- `armorEncoderStream.Close()`: every error return sets `s.err` (the deferred
+    function) -/
 def FArm.close (s : FArm) : Bool × FArm :=
   if s.failed then (false, s) else
-  let s1 := s.feed s.enc.close.2
+  match s.enc.close with
+  | (false, e') => (false, { s.feed e' with failed := true })
+  | (true, e') =>
+  let s1 := s.feed e'
   match FArm.spaceOut (s1.buf.length + 1) s1 with
   | (false, s2) => (false, { s2 with failed := true })
   | (true, s2) =>
@@ -486,6 +503,20 @@ def FArm.close (s : FArm) : Bool × FArm :=
         else []
       match w'.write (pad ++ [Armor.period, Armor.space] ++ s2.ftr ++ [Armor.period, Armor.newline]) with
       | (ok, w'') => (ok, { s2 with nWords := n, w := w'', failed := !ok })
+
+/-- a sequence of calls on the bare armor stream (`some b` = `Write(b)`, `none` =
+    `Close()`), the caller carrying on whatever a call returned: the `(n, ok)` of
+    every call (`n = 0` for `Close`) and the final state -/
+def FArm.calls : FArm → List (Option Bytes) → List (Nat × Bool) × FArm
+  | s, [] => ([], s)
+  | s, some b :: ops =>
+    let r := s.writeN b
+    let rs := FArm.calls r.2.2 ops
+    ((r.1, r.2.1) :: rs.1, rs.2)
+  | s, none :: ops =>
+    let r := s.close
+    let rs := FArm.calls r.2 ops
+    ((0, r.1) :: rs.1, rs.2)
 
 /-- `newArmorEncoderStream`: `header + ". "` in one write -/
 def FArm.init (par : Armor.Params) (hdr ftr : Bytes) (w : Wr) : Bool × FArm :=
